@@ -37,7 +37,7 @@ func Run(tt *testing.T) func(t *sim.Tape, profile, tier string) *sim.RunResult {
 			if len(res.Sample) > 30 {
 				res.Sample = res.Sample[:30]
 			}
-			res.Reach = []string{fmt.Sprintf("%s chunk=%s fault=%s", kind, s.plan.chunk, s.faultKind())}
+			res.Reach = append([]string{fmt.Sprintf("%s chunk=%s fault=%s", kind, s.plan.chunk, s.faultKind())}, s.reach...)
 		}
 		res.WallMs = float64(time.Since(start).Microseconds()) / 1000
 		return res
@@ -139,4 +139,29 @@ func runC19(s *Session, tier string) string {
 	return kind
 }
 
-func runC16(s *Session, tier string) string { return "merkle" }
+// runC16 draws a host/renter Merkle session.
+func runC16(s *Session, tier string) string {
+	ops := drawMerkleOps(s.t)
+	var total int64
+	for _, op := range ops {
+		switch op.kind {
+		case "sector-root":
+			total += int64(op.short)
+		case "read-range":
+			total += int64(op.end-op.start)*64 + 600
+		default:
+			total += 600
+		}
+	}
+	s.drawPlan(s.t.Chance(1, 3), total)
+	s.plan.stallAt, s.plan.cutDir = -1, 1 // no deadlines in this session; only the host sends
+	if s.plan.flipDir == 0 {
+		s.plan.flipDir = 1 // only the host sends
+	}
+	if total > 100000 && (s.plan.chunk == "small" || s.plan.chunk == "byte") {
+		s.plan.chunk = "random"
+	}
+	runMerkle(s, ops)
+	s.run(200000)
+	return "merkle"
+}
